@@ -152,6 +152,10 @@ func bubble(sc stScenario) {
 	wall0 := time.Now() // fake
 	realStart := nowReal()
 	bin, sites := buildGuest(sc.Shape, true, sc.Pad)
+	var binB []byte
+	if sc.Shape == shCrossModuleLoop || sc.Shape == shCrossModuleNestedLoop {
+		binB, sites = buildGuestB(sc.Shape, true, sc.Pad)
+	}
 	r.Sites = sites
 	bg := context.Background()
 	var rc wazero.RuntimeConfig
@@ -188,6 +192,15 @@ func bubble(sc stScenario) {
 		panic(err)
 	}
 	var err error
+	if binB != nil {
+		cmB, err := rt.CompileModule(bg, binB)
+		if err != nil {
+			panic(err)
+		}
+		if _, err = rt.InstantiateModule(bg, cmB, wazero.NewModuleConfig().WithName("b")); err != nil {
+			panic(err)
+		}
+	}
 	mod, err = rt.Instantiate(bg, bin)
 	if err != nil {
 		panic(err)
